@@ -115,7 +115,7 @@ PROPS = {
              "decode to the same value; message headers for every type/name/seqid class",
     ),
     "C05": dict(
-        lean_modules=["Enc.Props.C05"],
+        lean_modules=["Enc.Props.C05", "Enc.Props.C14Raw"],
         variants=V_DEFAULT, areas=["json.parse", "json.skipSpaces", "json.Valid", "json.internalParseFlags", "json.decoder_parse",
                                    "json.encoder_encodeRawMessage", "json.encoder_encodeJSONMarshaler", "json.decoder_decodeArray",
                                    "json.decoder_decodeRawMessage", "json.hasNullPrefix", "json.hasTruePrefix", "json.hasFalsePrefix"],
@@ -175,7 +175,7 @@ PROPS = {
         assumptions=["template generation avoids zero map values and NaN/Inf/-0 (not representable / documented no-ops)"],
     ),
     "C01": dict(
-        lean_modules=["Enc.Props.C01", "Enc.Props.C01Fields"],
+        lean_modules=["Enc.Props.C01", "Enc.Props.C01Fields", "Enc.Props.C01Float", "Enc.Props.C14Raw"],
         variants=V_DEFAULT, areas=["json.encoder", "json.escapeIndex", "json.formatInteger", "json.appendInt", "json.appendUint", "json.constructCodec",
                                    "json.appendStructFields", "json.emptyFuncOf", "json.inlined", "json.constructMapCodec", "json.Marshal", "json.Append",
                                    "json.Encoder", "json.Escape", "json.AppendEscape", "json.appendCompactEscapeHTML", "json.constructStructType",
@@ -234,7 +234,7 @@ PROPS = {
                      "the immutable-value model; only the guard-byte differential on the real code covers it"],
     ),
     "C14": dict(
-        lean_modules=["Enc.Props.C14", "Enc.Props.C02Any"],
+        lean_modules=["Enc.Props.C14", "Enc.Props.C14Raw", "Enc.Props.C02Any"],
         variants=V_DEFAULT, areas=["json.encoder", "json.decoder", "json.Append", "json.Parse", "json.Encoder", "json.Decoder", "json.AppendFlags", "json.ParseFlags"],
         allowed_native=["Enc.Lemmas.Json", "Lemmas.Json"],
         main_theorem="Enc.Props.C14.dynChoice_is_documented_precedence (decision table of decodeDynamicNumber = documented precedence), dynChoice_value; string_round_trip, escapeHTML_changes_representation_only, int_round_trip_all_widths, render_valid, render_tokens_concat, sortMapKeys_members_perm; Enc.Props.C02Any.number_flags_change_type_only",
